@@ -61,7 +61,9 @@ RULE = ("transit-world transfers: file sizes {0,1,CHUNK±1,4*CHUNK±1,8*CHUNK±1
         "withheld by a man in the middle, optionally followed by a cut; a NAME.tmp already in the receive directory (longer, equal, "
         "shorter; planted, or left behind by a real interrupted transfer run first in the same sandbox); payload content classes "
         "(pseudo-random, all-zero, all-0xFF, one repeated byte, random with an all-zero tail/head/middle block of 1..2*CHUNK bytes; "
-        "also as members of directory trees and as all-zero records in the record-level stream); plus an adversarial record-level stream against the real "
+        "also as members of directory trees and as all-zero records in the record-level stream); texts, file names, directory names "
+        "and tree members that are not NFC (NFD, singleton signs, Hangul jamo, reordered combining marks, mixes), the offer travelling "
+        "through the real Sender._send_data / Receiver._get_data (dict_to_bytes / bytes_to_dict); plus an adversarial record-level stream against the real "
         "Receiver (over/under-long, empty records, loss before attach); non-trivial = reached a transfer outcome; distinct = "
         "distinct canonical output traces")
 
@@ -160,9 +162,31 @@ def silence(d):
 class FakeWormhole:
     def __init__(self):
         self.sent = []
+        self.inbox = []
 
     def send_message(self, b):
         self.sent.append(b)
+
+    def get_message(self):
+        return defer.succeed(self.inbox.pop(0))
+
+
+def over_the_wormhole(sender, offer, rx):
+    """the offer as it really travels: the REAL Sender._send_data (dict_to_bytes) puts it on the sender's wormhole, the
+    bytes are handed to the receiver's wormhole, the REAL Receiver._get_data (bytes_to_dict) takes it off"""
+    w_s = FakeWormhole()
+    sender._send_data({"offer": offer}, w_s)
+    rx.w.inbox.append(w_s.sent[-1])
+    got = []
+    d = rx.r._get_data(rx.w)
+    d.addCallbacks(got.append, lambda f: got.append(f))
+    if not got or isinstance(got[0], Failure):
+        raise RuntimeError("the offer did not arrive: %r" % (got,))
+    return got[0]["offer"]
+
+
+def cps(s):
+    return " ".join("U+%04X" % ord(c) for c in s)
 
 
 class FakeTransit:
@@ -400,7 +424,7 @@ def _run_xfer(case, box, srcname):
         s._fd_to_send = fd
         ts, tr, cs, cr = make_pipe()
         rx = RxEnd(dstdir, cr)
-        rx.offer(offer)
+        rx.offer(over_the_wormhole(s, offer, rx))
         printed = rx.args.stdout.getvalue()
         rs = outcome(rx.d)
         answer = bytes_to_dict(rx.w.sent[-1]).get("answer") if rx.w.sent else None
@@ -419,7 +443,7 @@ def _run_xfer(case, box, srcname):
         exp.append(ss)
         back = unescape_printed(printed[:-1]) if printed.endswith("\n") else None
         if rs == "ok" and back != text:
-            viol.append(("text-not-exact", f"printed {printed!r} does not decode to {text!r}"))
+            viol.append(("text-not-exact", f"printed {printed!r} decodes to [{cps(back or '')}], the sender's text is [{cps(text)}]"))
         if rs == "ok" and any((ord(c) < 32 or ord(c) == 127) for c in printed[:-1]):
             viol.append(("text-not-terminal-safe", f"printed {printed!r} contains control characters"))
         if ss == "ok" and (forged not in ("honest", "ok") or rs != "ok"):
@@ -458,7 +482,7 @@ def _run_xfer(case, box, srcname):
     if stale_len is not None:
         tags.append("stale-tmp:" + ("longer" if stale_len > len(content) else "equal" if stale_len == len(content) else "shorter"))
     before = snapshot_tree(dstdir)
-    rx.offer(offer)
+    rx.offer(over_the_wormhole(s, offer, rx))
     if outcome(rx.d) != "pending":
         # the offer was turned down before any transit (e.g. the name already exists): nothing may change on disk
         try:
@@ -670,6 +694,9 @@ def _run_xfer(case, box, srcname):
     others = sorted(set(os.listdir(dstdir)) - {os.path.basename(dest), os.path.basename(dest) + ".tmp"})
     if others:
         viol.append(("stray-files", f"unexpected entries in the receive directory: {others}"))
+    if rs == "ok" and (os.path.basename(dest) != name or not os.path.lexists(os.path.join(dstdir, name))):
+        viol.append(("name-not-exact", f"the sender sent {name!r} [{cps(name)}], the receiver created "
+                     f"{os.path.basename(dest)!r} [{cps(os.path.basename(dest))}]"))
 
     def final_matches_source():
         if pl["type"] == "file":
@@ -797,6 +824,12 @@ TREES = [
 ]
 TEXTS = ["hello", "it's", 'say "hi"', "both ' and \"", "back\\slash", "line1\nline2", "tab\there", "\x1b[31mred\x07", "ünï©ode ✓",
          "\U0001f600", "\\n is not a newline", "trailing\\", "\x7f\x00\x01", "a" * 300, " sep", "'", '"', "\\'"]
+# strings that are NOT in Unicode normalisation form C (or that NFC/NFKC would change): a codec that normalises on the way
+# alters them.  NFD accents, ANGSTROM / OHM / KELVIN signs (singleton decompositions), conjoining Hangul jamo, combining marks in
+# non-canonical order, a precomposed + decomposed mix, a composition exclusion, a CJK compatibility ideograph, a ligature.
+NON_NFC = ["Cafe\u0301", "re\u0301sume\u0301", "A\u030angstro\u0308m", "\u212bngstro\u0308m", "\u2126 ohm \u212a", "\u1112\u1161\u11ab\u1100\u1173\u11af",
+           "q\u0307\u0323", "q\u0323\u0307", "\u00e9e\u0301", "\u0958", "\uf900x", "\ufb01le", "o\u0302\u0303 o\u0303\u0302", "\u1e9b\u0323", "\u0041\u0301\u0328"]
+
 FORGED = ["drop", "flip", "wronghash", "samehash", "nohash", "notok", "junkhash", "uphash", "noack", "garbage"]
 
 
@@ -905,6 +938,15 @@ def corpus():
     out.append(dict(kind="records", xfersize=4096, recs=[zrec], script=list("cr")))
     for t in TEXTS:
         out.append(xfer(dict(type="text", text=t)))
+    # text, file names and directory names that are not NFC: reproduced code point for code point / created under that very name
+    for i, u in enumerate(NON_NFC):
+        out.append(xfer(dict(type="text", text=u)))
+        out.append(xfer(dict(type="text", text="see " + u + " and " + NON_NFC[(i + 1) % len(NON_NFC)] + "\n")))
+        out.append(xfer(filep(5 + i, pseed=i), name=u + ".txt", chunk="rec"))
+        out.append(xfer(dict(type="dir", pseed=i, tree=[[NON_NFC[(i + 3) % len(NON_NFC)] + ".bin", 7], ["sub " + u + "/x", 3], ["e " + u, None]]),
+                        name=u, chunk="rand", cseed=i))
+    out.append(xfer(filep(CHUNK + 1), name=NON_NFC[1] + ".dat", fault=dict(kind="cut", at=["rec", 1, 0])))
+    out.append(xfer(filep(30), name=NON_NFC[5], stale=100))
     for a in ["ok", "no", "missing", "OK"]:
         out.append(xfer(dict(type="text", text="hi"), textack=a))
     out.append(dict(kind="records", xfersize=5, recs=["0102", "", "030405", "06"], script=list("rrcrr")))
@@ -929,16 +971,16 @@ def gen_xfer(rng):
         tree = []
         for i in range(rng.randrange(0, 5)):
             depth = rng.randrange(1, 4)
-            comps = [rng.choice(["a", "b c", "ä", "-x", ".h", "Z"]) + str(i) for _ in range(depth)]
+            comps = [rng.choice(["a", "b c", "ä", "-x", ".h", "Z", "e\u0301", "\u1112\u1161", "\u212b"]) + str(i) for _ in range(depth)]
             ent = ["/".join(comps), None if rng.random() < 0.25 else rng.choice([0, 1, 100, 4096, CHUNK, CHUNK + 1, 50000])]
             if ent[1] is not None and rng.random() < 0.4:
                 ent.append(rng.choice(FILLS))
             tree.append(ent)
         payload = dict(type="dir", tree=tree, pseed=rng.randrange(1000))
-        name = rng.choice(["d", "my dir", "ünï"])
+        name = rng.choice(["d", "my dir", "ünï"] + NON_NFC[:8])
     else:
         payload = filep(size, rng.randrange(1000))
-        name = rng.choice(["payload.bin", "a b", "ünï.txt", "-rf", ".hidden", "x.tmp"])
+        name = rng.choice(["payload.bin", "a b", "ünï.txt", "-rf", ".hidden", "x.tmp"] + [u + ".x" for u in NON_NFC[:8]])
     c = xfer(payload, name=name, chunk=rng.choice(["rand", "rand", "rec", "all", "one"]), cseed=rng.randrange(10**6),
              early=rng.choice([0, 0, 0, 1, 2, 99]))
     k = rng.random()
@@ -994,7 +1036,8 @@ def gen_xfer(rng):
 
 def gen_text(rng):
     alphabet = ["a", "Z", " ", "'", '"', "\\", "\n", "\r", "\t", "\x00", "\x1b", "\x7f", "\x9b", "é", "ß", "✓", "名", "\U0001f600",
-                "\u200b", "\u2028", "\xa0", "\\n", "\\x41", "\\'", "{", "}"]
+                "\u200b", "\u2028", "\xa0", "\\n", "\\x41", "\\'", "{", "}", "e\u0301", "\u0301", "\u0323\u0307", "\u0307\u0323", "\u1112\u1161\u11ab",
+                "\u212b", "\u2126", "\u00e9", "\ufb01", "\u0958"]
     text = "".join(rng.choice(alphabet) for _ in range(rng.randrange(1, 12)))
     c = xfer(dict(type="text", text=text))
     if rng.random() < 0.2:
